@@ -67,6 +67,9 @@ type Prog struct {
 	Mode sop.TransactionMode
 	Ops  []Op
 	End  string // "commit" | "rollback"
+	// Proc > 0: the transaction runs as another process would: its own L1 cache (handles, nodes), the same L2
+	// cache content and the same folder (see sopenv.NewTransactionProc).
+	Proc int
 }
 
 func (p Prog) String() string {
@@ -75,6 +78,9 @@ func (p Prog) String() string {
 		s = append(s, o.String())
 	}
 	m := map[sop.TransactionMode]string{sop.ForWriting: "W", sop.ForReading: "R", sop.NoCheck: "N"}[p.Mode]
+	if p.Proc > 0 {
+		m += fmt.Sprintf("@proc%d", p.Proc)
+	}
 	return fmt.Sprintf("%s[%s]{%s;%s}", p.Name, m, strings.Join(s, ";"), p.End)
 }
 
@@ -125,7 +131,7 @@ func Run(ctx context.Context, p Prog, stores map[string]StoreSpec) *Record {
 	}
 	rec.BeginAt = stamp()
 	defer func() { rec.EndAt = stamp() }()
-	tx, err := sopenv.NewTransaction(ctx, p.Mode)
+	tx, err := sopenv.NewTransactionProc(ctx, p.Mode, p.Proc)
 	if err != nil {
 		rec.BeginErr = err.Error()
 		return rec
